@@ -8,16 +8,16 @@ CFG = dict(
     rule="part A (cases.v): one case = one synctest bubble around the REAL service.NewRecoverer wrapping a gated service of one of "
          "three kinds (once = the real tickers.NewTimeTicker, i.e. chainlink-common StateMachine; fresh; sticky) driven through a phase "
          "script: per phase the actions start / Close / arm a panic / arm a spontaneous return are issued back to back (with 0..5 "
-         "scheduler yields), the service goroutine is or is not held before it enters service.Start, and 1.5 s or 25 s (> tick + 10 s "
+         "scheduler yields), the service goroutine is or is not held before it enters service.Start, a call of the wrapped service's Close() is or is not kept from returning (a slow Close: the cool-down can end while recoverer.Close is inside it), and 1.5 s or 25 s (> tick + 10 s "
          "cool-down) of virtual time pass, then synctest.Wait. Boundary families (every kind): clean, Close before Start, Close racing "
          "Start, Close while the launched service has not entered Start, Close during the cool-down, at the end of the cool-down, panic "
-         "then recovery (once / twice / then Close), panic racing Close, restart held then Close, spontaneous return racing Close, Close "
+         "then recovery (once / twice / then Close), panic racing Close, restart held then Close, slow Close during the cool-down / while running / before Start, spontaneous return racing Close, Close "
          "while running; plus VERIF_N random scripts from one PRNG. Observation = Close result class, Start result class, service "
          "goroutine (none / held / inside Start / blocked sending), number of Start calls, Start entered after Close returned. "
          "Non-trivial = settled script with a Close or a panic. "
          "Part B (direct.json): real plug-in from the public factory, plugin.Close at 23 instants (right after creation with 1 P, after "
          "0..20 yields, after start-up, 1 ms .. 61 s incl. tick boundaries of every ticker and cache cleaner, during an in-progress 2 s "
-         "pipeline run), runtime.Stack of the bubble filtered to repository frames + live block subscriptions + provider call counters "
+         "pipeline run), calls still in progress once Close has returned (context not cancelled), runtime.Stack of the bubble filtered to repository frames + live block subscriptions + provider call counters "
          "after Close + 30 s + 1 h. Part C (direct.json): panic injected into the 1st / 3rd call of each provider, the check pipeline and "
          "the state updater (post-processor), one child process per case: process survives, every flow still ticks between 60 s and "
          "120 s, the affected call site is called again within 10 s, then Close + leak accounting.",
